@@ -25,11 +25,15 @@ Definition key_of (ord : N) (k : kspec) : option key_info :=
   | KNone => None
   | KKey proto len => Some {| k_data := repeat (n2b ord) (N.to_nat len); k_proto := proto |}
   end.
-Inductive pspec := PNone | PSome (authd : bool) (user valid : option str).
+Inductive pspec := PNone | PSome (authd : bool) (user valid : option str)
+  | PClient (authd : bool) (user valid : option str).   (* a client-side record (CedarClientSideSession = true) *)
 Definition pol_of (p : pspec) : option policy :=
   match p with
   | PNone => None
-  | PSome a u v => Some {| p_authenticated := Some a; p_user := u; p_valid := v; p_authmethods := None; p_crypto := None |}
+  | PSome a u v => Some {| p_authenticated := Some a; p_user := u; p_valid := v; p_authmethods := None; p_crypto := None;
+                           p_client_side := None |}
+  | PClient a u v => Some {| p_authenticated := Some a; p_user := u; p_valid := v; p_authmethods := None; p_crypto := None;
+                             p_client_side := Some true |}
   end.
 
 Inductive yop :=
